@@ -221,9 +221,9 @@ theorem first_start_bol {t : FState} {c : Rune} (hr : Reg t) (hc : startCh c = t
   by_cases hn : nest = 0
   · subst hn
     simp [maybeFlush, stepWord, stepWord2, stepWord3, stepWord4, stepWord5, stepWord6, FState.nextLines, tabs_eq,
-      FState.indent, FState.write, tabsN, h60, rLT, rNL, rClose, rTAB]
+      FState.indent, FState.write, tabsN, h60, rLT, rClose, rTAB]
   · simp [maybeFlush, stepWord, stepWord2, stepWord3, stepWord4, stepWord5, stepWord6, FState.nextLines, tabs_eq,
-      FState.indent, FState.write, tabsN, hn, h60, rLT, rNL, rClose, rTAB]
+      FState.indent, FState.write, tabsN, hn, h60, rLT, rClose, rTAB]
 
 /-- no `{` pending, right after a newline was written: `}` needs no further newline -/
 theorem first_close_bol {t : FState} (hr : Reg t) (h1 : t.space = true) (h2 : t.openBrace = false) (h3 : t.last = 10) :
@@ -236,7 +236,7 @@ theorem first_close_bol {t : FState} (hr : Reg t) (h1 : t.space = true) (h2 : t.
   subst hb
   simp only at h1 h2 h3
   subst h1 h2 h3
-  simp [maybeFlush, stepBrace, tabs_eq, FState.indent, FState.nextLine, FState.write, tabsN, rNL, rClose, rOpen]
+  simp [maybeFlush, stepBrace, tabs_eq, FState.indent, FState.write, tabsN, rNL, rClose, rOpen]
 
 /-- no `{` pending: `}` goes on its own line, one level less -/
 theorem first_close {t : FState} (hr : Reg t) (h1 : t.space = true) (h2 : t.openBrace = false) (h3 : t.last ≠ 10) :
@@ -423,7 +423,7 @@ theorem foldl_comment : ∀ (cs : List Rune) (s : FState), s.comment = true → 
       simp only at h1 h2 h3
       subst h1 h2 h3
       simp [step, step2, stepHeredoc, stepLiteral, stepLiteral2, FState.write, rBQ, rNL, h10, h96]
-    rw [List.foldl_cons, hstep, foldl_comment cs _ h1 h2 h3 hc.2]
+    rw [List.foldl_cons, hstep, foldl_comment cs { s with rout := c :: s.rout, last := c } h1 h2 h3 hc.2]
     simp [lastOf, List.reverse_cons, List.append_assoc]
 
 /-- the newline that ends a comment is written at once -/
@@ -469,7 +469,8 @@ theorem kind_plain_word {c : Chunk} (hw : c.wordOK = true) (hk : c.kind = .plain
           have ha : (a == rHash) = false := by
             simp only [List.head?_cons, Option.some.injEq] at h3; simp [h3]
           simp only [hcw] at h1 h2
-          simp only [Bool.or_eq_true, beq_iff_eq, h1, h2, false_or, ha, Bool.false_and, Bool.and_eq_true] at hw
+          simp only [Bool.or_eq_true, beq_iff_eq, h1, h2, false_or, ha, Bool.false_and, Bool.and_eq_true,
+            Bool.false_eq_true] at hw
           exact ⟨a, as, rfl, hw.1, hw.2⟩
 
 theorem kind_cmt_word {c : Chunk} (hw : c.wordOK = true) (hk : c.kind = .cmt) :
@@ -490,7 +491,7 @@ theorem kind_cmt_word {c : Chunk} (hw : c.wordOK = true) (hk : c.kind = .cmt) :
           subst h3
           simp only [hcw] at h1 h2
           simp only [Bool.or_eq_true, beq_iff_eq, h1, h2, false_or, plainCh_hash, Bool.false_and, or_false,
-            Bool.and_eq_true, Bool.not_eq_true', true_and] at hw
+            Bool.and_eq_true, Bool.not_eq_true', true_and, Bool.false_eq_true] at hw
           exact ⟨as, rfl, hw.1, hw.2⟩
       · cases hk
 
@@ -847,6 +848,80 @@ theorem chunk_step {prev : Option Kind} {N : Nat} {s : FState} {c : Chunk} {cs :
         rw [outOf_np this.1.np, outOf_np hinv'.np, this.2]
         have hnl : countNL c.sep ≠ 0 := by have := hcond.1; unfold Chunk.nl at this; omega
         simp [canonSep, hk, Chunk.nl, hnl, reverse_tabsN, reverse_nlsN]
+      | cmt =>
+        have hinv' : InvM N s := hinv
+        simp only [hk, Bool.and_eq_true, beq_iff_eq] at hcond
+        obtain ⟨ws, hws⟩ : ∃ ws, c.sep = rNL :: ws := by
+          cases hcs : c.sep with
+          | nil => rw [hcs] at hcond; simp at hcond
+          | cons x ws =>
+            rw [hcs] at hcond
+            simp only [List.head?_cons, Option.some.injEq] at hcond
+            exact ⟨ws, by rw [hcond.1]⟩
+        rw [hws] at hsep ⊢
+        simp only [List.all_cons, Bool.and_eq_true] at hsep
+        have := m_plain hinv' hsep.2 ha has
+        refine ⟨this.1, ?_⟩
+        rw [outOf_np this.1.np, outOf_m hinv', this.2]
+        simp [canonSep, hk, Chunk.nl, hws, countNL, reverse_tabsN, reverse_nlsN]
+  | cmt =>
+    obtain ⟨as, hword, has, hlast⟩ := kind_cmt_word hw hk
+    rw [hword]
+    cases prev with
+    | none =>
+      obtain ⟨rfl, rfl⟩ := hinv
+      simp only [List.isEmpty_iff, Bool.and_eq_true] at hcond
+      rw [hcond.1]
+      have := init_cmt has hlast
+      simp only [List.nil_append]
+      refine ⟨this.1, ?_⟩
+      rw [outOf_m this.1, this.2]
+      simp [outOf, canonSep]
+    | some k =>
+      cases k with
+      | plain =>
+        have hinv' : InvP N s := hinv
+        simp only [hk, Bool.and_eq_true, Bool.not_eq_true', List.isEmpty_eq_false_iff] at hcond
+        by_cases hnl : countNL c.sep = 0
+        · have := p_cmt_sp hinv' hsep hcond.1 hnl has hlast
+          refine ⟨this.1, ?_⟩
+          rw [outOf_m this.1, outOf_np hinv'.np, this.2]
+          simp [canonSep, hk, Chunk.nl, hnl]
+        · have := np_cmt_nl hinv'.np hsep (by omega) has hlast
+          refine ⟨this.1, ?_⟩
+          rw [outOf_m this.1, outOf_np hinv'.np, this.2]
+          simp [canonSep, hk, Chunk.nl, hnl, reverse_tabsN, reverse_nlsN]
+      | opn =>
+        have hinv' : InvO N s := hinv
+        simp only [hk, Bool.and_eq_true, decide_eq_true_eq] at hcond
+        have := o_cmt hinv' hsep hcond.1 has hlast
+        refine ⟨this.1, ?_⟩
+        rw [outOf_m this.1, outOf_o hinv', this.2]
+        simp [canonSep, hk, reverse_tabsN]
+      | cls =>
+        have hinv' : InvC N s := hinv
+        simp only [hk, Bool.and_eq_true, decide_eq_true_eq] at hcond
+        have := np_cmt_nl hinv'.np hsep hcond.1 has hlast
+        refine ⟨this.1, ?_⟩
+        rw [outOf_m this.1, outOf_np hinv'.np, this.2]
+        have hnl : countNL c.sep ≠ 0 := by have := hcond.1; unfold Chunk.nl at this; omega
+        simp [canonSep, hk, Chunk.nl, hnl, reverse_tabsN, reverse_nlsN]
+      | cmt =>
+        have hinv' : InvM N s := hinv
+        simp only [hk, Bool.and_eq_true, beq_iff_eq] at hcond
+        obtain ⟨ws, hws⟩ : ∃ ws, c.sep = rNL :: ws := by
+          cases hcs : c.sep with
+          | nil => rw [hcs] at hcond; simp at hcond
+          | cons x ws =>
+            rw [hcs] at hcond
+            simp only [List.head?_cons, Option.some.injEq] at hcond
+            exact ⟨ws, by rw [hcond.1]⟩
+        rw [hws] at hsep ⊢
+        simp only [List.all_cons, Bool.and_eq_true] at hsep
+        have := m_cmt hinv' hsep.2 has hlast
+        refine ⟨this.1, ?_⟩
+        rw [outOf_m this.1, outOf_m hinv', this.2]
+        simp [canonSep, hk, Chunk.nl, hws, countNL, reverse_tabsN, reverse_nlsN]
   | opn =>
     rw [kind_opn_word hk]
     cases prev with
@@ -870,6 +945,7 @@ theorem chunk_step {prev : Option Kind} {N : Nat} {s : FState} {c : Chunk} {cs :
         simp [canonSep, hk]
       | opn => simp [hk] at hcond
       | cls => simp [hk] at hcond
+      | cmt => simp [hk] at hcond
   | cls =>
     rw [kind_cls_word hk]
     cases prev with
@@ -900,6 +976,22 @@ theorem chunk_step {prev : Option Kind} {N : Nat} {s : FState} {c : Chunk} {cs :
         refine ⟨this.1, ?_⟩
         rw [outOf_np this.1.np, outOf_np hinv'.np, this.2]
         simp [canonSep, hk, reverse_tabsN]
+      | cmt =>
+        have hinv' : InvM N s := hinv
+        simp only [hk, Bool.and_eq_true, beq_iff_eq] at hcond
+        obtain ⟨ws, hws⟩ : ∃ ws, c.sep = rNL :: ws := by
+          cases hcs : c.sep with
+          | nil => rw [hcs] at hcond; simp at hcond
+          | cons x ws =>
+            rw [hcs] at hcond
+            simp only [List.head?_cons, Option.some.injEq] at hcond
+            exact ⟨ws, by rw [hcond.1]⟩
+        rw [hws] at hsep ⊢
+        simp only [List.all_cons, Bool.and_eq_true] at hsep
+        have := m_close hinv' hsep.2
+        refine ⟨this.1, ?_⟩
+        rw [outOf_np this.1.np, outOf_m hinv', this.2]
+        simp [canonSep, hk, reverse_tabsN]
 
 /-- **the whole chunk list**: the buffer ends up holding exactly the canonical rendering -/
 theorem fmt_chunks : ∀ (cs : List Chunk) (prev : Option Kind) (N : Nat) (s : FState),
@@ -909,7 +1001,7 @@ theorem fmt_chunks : ∀ (cs : List Chunk) (prev : Option Kind) (N : Nat) (s : F
   | [], prev, N, s, hg, hinv => by
     simp only [goodFrom, Bool.or_eq_true, beq_iff_eq] at hg
     simp only [flatten, List.foldl_nil, canon, List.append_nil]
-    rcases hg with hg | hg
+    rcases hg with (hg | hg) | hg
     · subst hg
       have h : InvP N s := hinv
       obtain ⟨r, hr⟩ := h.head
@@ -918,6 +1010,10 @@ theorem fmt_chunks : ∀ (cs : List Chunk) (prev : Option Kind) (N : Nat) (s : F
       have h : InvC N s := hinv
       obtain ⟨r, hr⟩ := h.head
       exact ⟨⟨_, r, hr, by decide⟩, (outOf_np h.np).symm⟩
+    · subst hg
+      have h : InvM N s := hinv
+      obtain ⟨r, hr⟩ := h.head
+      exact ⟨⟨_, r, hr, h.lastNS⟩, (outOf_m h).symm⟩
   | c :: cs, prev, N, s, hg, hinv => by
     have h1 := chunk_step hg hinv
     have hg' : goodFrom (some c.kind) cs = true := by
@@ -959,21 +1055,23 @@ theorem trimSpace_sandwich {lead m trail : List Rune} (hl : lead.all isSpace = t
 theorem word_nonspace {c : Chunk} (hw : c.wordOK = true) :
     (∃ a r, c.word = a :: r ∧ isSpace a = false) ∧ (∃ z r, c.word.reverse = z :: r ∧ isSpace z = false) := by
   unfold Chunk.wordOK at hw
-  simp only [Bool.or_eq_true, beq_iff_eq, Bool.and_eq_true, Bool.not_eq_true'] at hw
+  simp only [Bool.or_eq_true, beq_iff_eq] at hw
   rcases hw with (hw | hw) | hw
   · rw [hw]; exact ⟨⟨_, _, rfl, by decide⟩, ⟨_, _, rfl, by decide⟩⟩
   · rw [hw]; exact ⟨⟨_, _, rfl, by decide⟩, ⟨_, _, rfl, by decide⟩⟩
-  · have hall : ∀ x ∈ c.word, plainCh x = true := by simpa [List.all_eq_true] using hw.2
-    constructor
-    · cases hcw : c.word with
-      | nil => simp [hcw] at hw
-      | cons a r => exact ⟨a, r, rfl, (plainCh_spec (hall a (by simp [hcw]))).1⟩
-    · cases hcw : c.word.reverse with
-      | nil => simp at hcw; simp [hcw] at hw
-      | cons z r =>
-        refine ⟨z, r, rfl, (plainCh_spec (hall z ?_)).1⟩
-        have : z ∈ c.word.reverse := by simp [hcw]
-        simpa using this
+  · cases hcw : c.word with
+    | nil => simp [hcw] at hw
+    | cons h t =>
+      rw [hcw] at hw
+      simp only [Bool.or_eq_true, Bool.and_eq_true, beq_iff_eq, Bool.not_eq_true'] at hw
+      obtain ⟨r, hr⟩ := reverse_append_lastOf t h []
+      have hrev : (h :: t).reverse = lastOf h t :: r := by
+        rw [List.reverse_cons]; exact hr
+      rcases hw with hw | hw
+      · obtain ⟨⟨hh, -⟩, hl⟩ := hw
+        subst hh
+        exact ⟨⟨_, _, rfl, by decide⟩, ⟨_, r, hrev, hl⟩⟩
+      · exact ⟨⟨_, _, rfl, (plainCh_spec hw.1).1⟩, ⟨_, r, hrev, (plainCh_spec (lastOf_plain t h hw.1 hw.2)).1⟩⟩
 
 theorem flatten_head {prev : Option Kind} {c : Chunk} {cs : List Chunk} (hg : goodFrom prev (c :: cs) = true)
     (hs : c.sep = []) : ∃ a r, flatten (c :: cs) = a :: r ∧ isSpace a = false := by
